@@ -46,11 +46,11 @@ def parseable(lst):
     return True
 
 
-def build_obj(h, lst, variant, path, hdr=(), salt=0):
+def build_obj(h, lst, variant, path, hdr=(), salt=0, nov=False):
     """hdr: header-only sections (only a parsed file can have them): `[A]` lines placed at section
     boundaries chosen by `salt` (after the group-less keys, between two sections, at the end)."""
     s = []
-    if (variant == 3 and parseable(lst) and lst) or hdr:
+    if (variant == 3 and parseable(lst) and lst) or hdr or nov:
         assert parseable(lst)
         lines = []
         cur = []
@@ -58,7 +58,10 @@ def build_obj(h, lst, variant, path, hdr=(), salt=0):
             if e["g"] != cur:
                 lines.append(b"[" + bytes(e["g"]) + b"]")
                 cur = e["g"]
-            lines.append(bytes(e["k"]) + b"=" + bytes(e["v"]))
+            if nov and (not lines or lines[-1].startswith(b"[")):
+                lines.append(bytes(e["k"]))          # a key without delimiter: stored WITHOUT a value (first line / first of its section)
+            else:
+                lines.append(bytes(e["k"]) + b"=" + bytes(e["v"]))
         for n, g in enumerate(sorted(hdr)):
             bounds = [i for i, ln in enumerate(lines) if ln.startswith(b"[")] + [len(lines)]
             lines.insert(bounds[(salt + n) % len(bounds)], b"[" + bytes(g) + b"]")
@@ -162,6 +165,40 @@ def run_pairs(exe, pairs, verdict, expect=None, i0=0):
     return events
 
 
+def inputs_unchanged(exe, pairs, verdict, pid):
+    """Both inputs of econf_mergeFiles are parsed files in which the first key of the file / of each section has NO value
+    (no delimiter): everything the extended dump shows of either input (values as stored incl. their absence, comments,
+    line numbers, sections, path) must be the same before and after the call, in both roles."""
+    pairs = [(b, o) for b, o in pairs if parseable(b) and parseable(o)]
+    cases = []
+    for i, (b, o) in enumerate(pairs):
+        root = core.ROOT + "/u%d" % (i % 32)
+        s = build_obj(1, b, 3, root + "/b.conf", nov=True) + build_obj(2, o, 3, root + "/o.conf", nov=True)
+        s += ["dumpx 1", "dumpx 2", "merge 3 1 2", "dumpx 1", "dumpx 2", "get String 2 - x78", "get Int 2 - x78", "free 3", "free 1", "free 2"]
+        cases.append((i, s))
+    res = core.run_cases(exe, cases)
+    n = 0
+    for i, (b, o) in enumerate(pairs):
+        out = res.get(i)
+        case = {"kind": "merge-inputs", "b": b, "o": o, "i": i}
+        if out is None or out["crash"]:
+            verdict.violation("%s:merge-inputs:crash" % pid, dict(case, crash=(out or {}).get("crash")),
+                              "econf_mergeFiles crashed on parsed inputs with value-less keys\nbase: %s\nover: %s\n%s" % (show(b), show(o), (out or {}).get("crash", "")[:900]))
+            continue
+        d = [e for e in out["ev"] if e["op"] == "dump"]
+        if len(d) != 4 or any(x["st"] is None for x in d):
+            raise core.ToolFailure("harness could not build the merge inputs: %s" % [e for e in out["ev"] if e.get("rc") not in (None, "ECONF_SUCCESS")][:2])
+        n += 1
+        for role, a, z in (("base", d[0], d[2]), ("override", d[1], d[3])):
+            if a["st"] != z["st"]:
+                diff = [(x, y) for sa, sz in zip(a["st"]["secs"], z["st"]["secs"]) for x, y in zip(sa["keys"], sz["keys"]) if x != y][:2]
+                verdict.violation("%s:merge-inputs:%s-changed" % (pid, role), dict(case, before=a["st"], after=z["st"]),
+                                  "econf_mergeFiles changed its %s input (first key of the file / of each section has no value)\nbase: %s\nover: %s\nfirst differences (before, after): %s" % (
+                                      role, show(b), show(o), json.dumps(diff)[:600]))
+                break
+    return n
+
+
 def show(l):
     return " ".join("%s/%s=%s" % (core.uncodes(e["g"]) or "-", core.uncodes(e["k"]), core.uncodes(e["v"])) for e in l) or "(empty)"
 
@@ -210,9 +247,11 @@ def check(pid, tier, seed):
     nn = sum(1 for b, o in pairs if nontrivial(b, o))
     # header-only sections on either side (parsed files only)
     r2, recs2, total2 = export("MC_Merge", {"MaxLen": maxlen - 1, "Export": "TRUE", "Hdr": "TRUE"}, ["MergeIsRef", "WithinBounds"], seed=seed)
+    plain2 = [(x["b"], x["o"]) for x in recs2 if not x["bh"] and not x["oh"]]
     recs2 = [x for x in recs2 if (x["bh"] or x["oh"]) and parseable(x["b"]) and parseable(x["o"])]
     hpairs = [(x["b"], x["o"], [tuple(g) for g in x["bh"]], [tuple(g) for g in x["oh"]]) for x in recs2]
     run_pairs(exe, hpairs, verdict, [x["exp"] for x in recs2])
+    nin = inputs_unchanged(exe, plain2, verdict, "C03")
     # random larger pairs, validated by TLC
     rnd = random.Random(seed)
     npairs = 400 if tier == "quick" else 6000
@@ -240,8 +279,8 @@ def check(pid, tier, seed):
     samples = [{"base": show(b), "override": show(o), "expected": showobs(e)} for (b, o), e in list(zip(pairs, expect))[1000:1003]]
     cov = {"states": mc.distinct, "transitions": mc.generated, "traces_validated_against_impl": len(pairs) + acc,
            "evaluations": len(pairs) + len(rp), "distinct_nontrivial": nn,
-           "rule": "TLC: all pairs of duplicate-free entry lists of length <= %d over {group-less,A,B} x {x,y} (model-checked: %d pairs; exported and replayed through setters on newKeyFile/newIniFile/newKeyFile_with_options objects and parsed files: all %d pairs of length <= %d; %d pairs of length <= %d in which either side is a parsed file with header-only sections from {A,B} at varying positions) + %d random pairs of 0..30 entries validated by Trace_Merge + %d mixed histories with merges of parsed and built objects validated against the root specification (Trace_Econf). non-trivial = shared key, an empty side, or a re-opened section." % (
-               maxlen + 1, mc.distinct, len(pairs), maxlen, len(hpairs), maxlen - 1, len(rp), nmix),
+           "rule": "TLC: all pairs of duplicate-free entry lists of length <= %d over {group-less,A,B} x {x,y} (model-checked: %d pairs; exported and replayed through setters on newKeyFile/newIniFile/newKeyFile_with_options objects and parsed files: all %d pairs of length <= %d; %d pairs of length <= %d in which either side is a parsed file with header-only sections from {A,B} at varying positions; %d pairs of parsed files with value-less first keys: full extended dump of both inputs unchanged by the call) + %d random pairs of 0..30 entries validated by Trace_Merge + %d mixed histories with merges of parsed and built objects validated against the root specification (Trace_Econf). non-trivial = shared key, an empty side, or a re-opened section." % (
+               maxlen + 1, mc.distinct, len(pairs), maxlen, len(hpairs), maxlen - 1, nin, len(rp), nmix),
            "samples": samples, "exhaustive": True,
            "trusted_base": ["TLC 1.8.0", "gcc ASan/UBSan", "drv.c"]}
     core.write_evidence(pid, tier, seed, "model_checking", cov,
@@ -257,6 +296,9 @@ def replay(pid, path):
     exe = core.build("asan")
     c = rec["case"]
     v = core.Verdict(pid)
+    if c.get("kind") == "merge-inputs":
+        inputs_unchanged(exe, [(c["b"], c["o"])], v, pid)
+        return v.finish()
     i = c.get("i", 0)
     # the position of the pair selects the object kinds and header positions
     run_pairs(exe, [(c["b"], c["o"], [tuple(g) for g in c.get("bh", [])], [tuple(g) for g in c.get("oh", [])])], v, i0=i)
